@@ -111,6 +111,52 @@ Section Loop.
   Qed.
 End Loop.
 
+(** Partial correctness for any amount of fuel: an [Ok] result satisfies the postcondition
+    (running out of fuel is [Panic OutOfFuel], not [Ok]). *)
+Section LoopPartial.
+  Context {St A : Type}.
+  Variable step : St -> step_res St (res A).
+  Variable Inv : St -> Prop.
+  Variable Q : A -> Prop.
+  Hypothesis step_ok : forall s, Inv s ->
+    match step s with
+    | Done r => hoare r Q
+    | Continue s' => Inv s'
+    end.
+
+  Lemma run_loop_partial : forall fuel s a, Inv s -> run_loop step fuel s = Ok a -> Q a.
+  Proof.
+    induction fuel as [|fuel IH]; intros s a Hi Hr; cbn [run_loop] in Hr; [discriminate|].
+    pose proof (step_ok s Hi) as Hs.
+    destruct (step s) as [s'|r]; [eapply IH; eauto|].
+    subst r. exact Hs.
+  Qed.
+End LoopPartial.
+
+(** Same, when only [Ok] results matter (errors and panics are not excluded). *)
+Definition okpost {A} (r : res A) (Q : A -> Prop) : Prop :=
+  match r with Ok a => Q a | _ => True end.
+
+Section LoopOk.
+  Context {St A : Type}.
+  Variable step : St -> step_res St (res A).
+  Variable Inv : St -> Prop.
+  Variable Q : A -> Prop.
+  Hypothesis step_ok : forall s, Inv s ->
+    match step s with
+    | Done r => okpost r Q
+    | Continue s' => Inv s'
+    end.
+
+  Lemma run_loop_okpost : forall fuel s a, Inv s -> run_loop step fuel s = Ok a -> Q a.
+  Proof.
+    induction fuel as [|fuel IH]; intros s a Hi Hr; cbn [run_loop] in Hr; [discriminate|].
+    pose proof (step_ok s Hi) as Hs.
+    destruct (step s) as [s'|r]; [eapply IH; eauto|].
+    subst r. exact Hs.
+  Qed.
+End LoopOk.
+
 Definition bytes_ok (p : bytes) : Prop := Forall (fun b => (b < 256)%N) p.
 
 Lemma bytes_ok_nth p off b : bytes_ok p -> nth_error p off = Some b -> (b < 256)%N.
